@@ -61,6 +61,10 @@ def corpus():
     c['st_er7'] = ('S', lambda v, l: lambda: st_of(v)('x\\y|z#w', highlights=((0, 1), (2, 3))).to_er7())
     # highlight ranges given as a list that both threads pass to their own datatype object (the caller owns the list)
     c['st_shared_hl'] = ('X', lambda v, l: lambda: (st_of(v)('abcdefgh', highlights=SHARED_HL).to_er7(), tuple(SHARED_HL)))
+    # a structure that lists one child name twice (the second occurrence gets a numbered name) and a number with more
+    # significant digits than a default decimal context keeps
+    c['dup_names'] = ('X', lambda v, l: lambda: _dup_group(v, l))
+    c['fac_NMlong'] = ('X', lambda v, l: lambda: datatype_factory('NM', '3.14159265358979323846264338', v, l).to_er7())
     c['subcomp'] = ('M', lambda v, l: lambda: SubComponent(datatype='ST', value='x', version=v, validation_level=l).to_er7())
     c['component'] = ('M', lambda v, l: lambda: _comp(v, l))
     c['field'] = ('M', lambda v, l: lambda: _field(v, l))
@@ -105,6 +109,12 @@ def _open_field(seg, i, v, l):
     s = Segment(seg, version=v, validation_level=l)
     setattr(s, '%s_%d' % (seg.lower(), i), 'A')
     return s.to_er7(), [f.name for f in s.children]
+
+
+def _dup_group(v, l):
+    from hl7apy.core import Group
+    g = Group('NMR_N01_CLOCK_AND_STATS_WITH_NOTES_ALT' if v < '2.7' else 'CSU_C09_STUDY_OBSERVATION', version=v, validation_level=l)
+    return list(g.ordered_children), sorted(g.structure_by_name), sorted((k, tuple(v_)) for k, v_ in g.repetitions.items())
 
 
 def _message(v, l):
@@ -259,6 +269,11 @@ def harnesses(tier):
     hs.append((('st_shared_hl', 'st_shared_hl'), same2, 2, gran))
     hs.append((('st_shared_hl', 'st_shared_hl'), mixed, 2, gran))
     hs.append((('st_shared_hl', 'st_er7'), same2, 1, gran))
+    hs.append((('dup_names', 'dup_names'), same2, 1, gran))
+    hs.append((('dup_names', 'field'), same2, 1, gran))
+    hs.append((('dup_names', 'dup_names'), mixed, 1, gran))
+    hs.append((('fac_NMlong', 'fac_NMlong'), [('2.5', TOLERANT), ('2.5', TOLERANT)], 0, 'line'))
+    hs.append((('fac_NMlong', 'fac_NM'), [('2.5', TOLERANT), ('2.7', TOLERANT)], 1, gran))
     tol2 = [('2.5', TOLERANT), ('2.5', TOLERANT)]
     if q:
         # large bodies: both serial orders (bound 0) in quick; preemptions in thorough
